@@ -110,6 +110,9 @@ void psAesReadyGCM(psAesGcm_t *ctx,
     Memset(ctx->EncCtr, 0, 16);
     Memcpy(ctx->EncCtr, IV, 12);
     ctx->EncCtr[15] = 2;
+    /* No key stream is buffered for a new message (psAesGetGCMTag with
+       tagBytes < 16 leaves a partial block behind). */
+    ctx->OutputBufferCount = 0;
 
     psGhashUpdate(ctx, aad, aadLen, GHASH_DATATYPE_AAD);
     psGhashPad(ctx);
